@@ -11,7 +11,7 @@ from .common import (BaseHooks, V, finite, fnum, is_qmat, key, logspace_sigma, n
 PROP = "C04"
 WORLDS_QUICK = ("pkg", "flat")
 WORLDS_THOROUGH = ("pkg", "flat", "pkg_then_flat", "flat_then_pkg")
-FAMILIES = ("generic", "herm", "unitary", "cI", "I_lowrank", "tri", "diagrep", "spread", "perm", "near_I")
+FAMILIES = ("generic", "herm", "unitary", "cI", "I_lowrank", "tri", "diagrep", "spread", "perm", "near_I", "pure")
 B_KINDS = ("gauss", "gauss", "eigvec", "zero", "unit", "Ax_int")
 SWEEP_FOCUS = ["solve", "_solve_lower_triangular_quat", "_solve_upper_triangular_quat",
                "quaternion_lu", "quat_matmat"]
@@ -46,6 +46,15 @@ def gen_system(R, nmax):
     elif fam == "tri":
         A = {"gen": "tri", "n": n, "seed": s, "upper": R.random() < 0.5,
              "off": R.choice([0.1, 0.3])}
+    elif fam == "pure":
+        # entries confined to a subspace of H: purely imaginary (zero real parts, optionally a
+        # tiny leading entry so that pivoting matters) or purely real
+        if R.random() < 0.7:
+            A = {"gen": "imagq", "m": n, "n": n, "seed": s}
+            if R.random() < 0.5:
+                A["tiny00"] = R.choice([1e-3, 1e-6, 1e-9])
+        else:
+            A = {"gen": "realq", "m": n, "n": n, "seed": s}
     elif fam == "near_I":
         # c (I + eps G): every cycle reduces the residual by about eps, so the restart
         # residual passes through every decade (what an almost exact preconditioner gives)
